@@ -99,6 +99,22 @@ theorem inv_enabled {s : St} (hi : inv s = true) (hf : final s = false) : (enabl
         rename_i n q'
         cases n <;> simp
 
+theorem Reach.head {s s' s'' : St} {t : Tr} (h : step s t = some s') (hr : Reach s' s'') : Reach s s'' := by
+  induction hr with
+  | refl => exact .tail t (.refl s) h
+  | tail t' _ hs ih => exact .tail t' ih hs
+
+/-- whatever `runTrs` reaches is reachable -/
+theorem reach_runTrs (ts : List Tr) : ∀ s, Reach s (runTrs s ts) := by
+  induction ts with
+  | nil => intro s; exact .refl s
+  | cons t ts ih =>
+    intro s
+    simp only [runTrs]
+    cases h : step s t with
+    | some s' => exact Reach.head h (ih s')
+    | none => exact ih s
+
 theorem reach_inv {s s' : St} (hi : inv s = true) (hr : Reach s s') : inv s' = true := by
   induction hr with
   | refl => exact hi
